@@ -68,9 +68,62 @@ func dagCases(tier string, seed int64, quick, thorough int) []CaseSpec {
 
 func runC03(cs CaseSpec) *CaseResult {
 	res := newResult(cs)
+	// the same differential engine decides C01's "nodes that receive the same
+	// events in different orders deliver the same blocks" when asked to
+	label := cs.Str("as", "C03")
+	ordersOnly := label != "C03"
 	rng := cs.rng("c03")
 	sp := dagSpecFromCase(cs)
 	d := genDag(rng, cs.Seed*7919+int64(cs.Index), sp)
+	if shape := cs.Str("shape", ""); shape != "" {
+		sp.N = 4
+		d = genDagFromShape(rng, cs.Seed*7919+int64(cs.Index), shapeCorpus[shape], sp.N)
+		res.count("dag_from_shape_corpus", 1)
+	}
+	if cs.I("coin", 0) == 1 && cs.Str("shape", "") == "" {
+		// workload search: keep generating split-view DAGs until one makes a fame
+		// election last into a coin round (judged by running it)
+		found := false
+		for try := 0; try < int(cs.I("tries", 300)); try++ {
+			sp2 := sp
+			sp2.Hidden = true
+			sp2.HiddenHalf = (sp.N - 1) / 2
+			if sp2.HiddenHalf < 1 {
+				sp2.HiddenHalf = 1
+			}
+			sp2.HideFrom = 0.1 + 0.3*rng.Float64()
+			sp2.HideTo = sp2.HideFrom + 0.2 + 0.4*rng.Float64()
+			sp2.Private = 0
+			sp2.NoOtherFirst = 0
+			if try%2 == 1 {
+				sp2.Mute = true
+				sp2.MuteFrom = sp2.HideFrom + 0.05 + 0.3*rng.Float64()
+				sp2.MuteTo = sp2.MuteFrom + 0.15 + 0.3*rng.Float64()
+			}
+			cand := genDag(rng, cs.Seed*7919+int64(cs.Index)*1000+int64(try), sp2)
+			probe := execDag(cand, cand.Events, ExecOpts{Store: "inmem", Cache: len(cand.Events)*2 + 200, Batch: 1})
+			span := probe.MaxPendingSpan
+			partial := 0
+			if probe.Err == nil && span >= 3 {
+				partial, _ = electionProfile(probe)
+			}
+			probe.close()
+			res.count("dag_coin_search_candidates", 1)
+			if partial > 0 {
+				res.count("dag_coin_search_partial_deciders_before_coin_round", 1)
+			}
+			if probe.Err == nil && (partial > 0 || (try > int(cs.I("tries", 300))*3/4 && span >= int(cs.I("span", 4)))) {
+				d = cand
+				found = true
+				res.count("dag_coin_round_dags_found", 1)
+				res.max("dag_max_election_span_rounds", int64(span))
+				break
+			}
+		}
+		if !found {
+			res.count("dag_coin_search_failed", 1)
+		}
+	}
 	dir := dagWorkDir(cs)
 	defer os.RemoveAll(dir)
 	big := len(d.Events)*2 + 200
@@ -101,6 +154,20 @@ func runC03(cs CaseSpec) *CaseResult {
 	for k := 0; k < nOrders; k++ {
 		vs = append(vs, variant{"order", fmt.Sprintf("random linear extension #%d, in-memory", k), d.randomLinearExtension(rng, nil), ExecOpts{Store: "inmem", Cache: big, Batch: 1, ReadValues: true}, false})
 	}
+	for l := 0; l < sp.N && sp.N > 1; l++ {
+		if cs.I("coin", 0) != 1 && l >= 2 {
+			break
+		}
+		vs = append(vs, variant{"order", fmt.Sprintf("creator %d's events arrive as late as possible, in-memory", l), d.delayedExtension(rng, l), ExecOpts{Store: "inmem", Cache: big, Batch: 1, ReadValues: true}, false})
+	}
+	nAnc := 3
+	if cs.I("coin", 0) == 1 {
+		nAnc = 10
+	}
+	for k := 0; k < nAnc; k++ {
+		z := len(d.Events)/3 + rng.Intn(len(d.Events)*2/3)
+		vs = append(vs, variant{"order", fmt.Sprintf("ancestry of event #%d first, then the rest, in-memory", z), d.ancestryFirst(z), ExecOpts{Store: "inmem", Cache: big, Batch: 1, ReadValues: true}, false})
+	}
 	vs = append(vs, variant{"process", "same order, fresh instance (map iteration order, counters)", d.Events, ExecOpts{Store: "inmem", Cache: big, Batch: 1, ReadValues: true}, false})
 	vs = append(vs, variant{"store", "Badger, large cache, generation order", d.Events, ExecOpts{Store: "badger", Cache: big, Batch: 1, Dir: dir, ReadValues: true}, false})
 	vs = append(vs, variant{"store", "Badger, large cache, random order", d.randomLinearExtension(rng, nil), ExecOpts{Store: "badger", Cache: big, Batch: 1, Dir: dir, ReadValues: true}, false})
@@ -130,6 +197,9 @@ func runC03(cs CaseSpec) *CaseResult {
 		vs = append(vs, variant{"ideal", fmt.Sprintf("downward-closed sub-DAG of %d events, random order", len(sub)), d.randomLinearExtension(rng, sub), ExecOpts{Store: "inmem", Cache: big, Batch: 1, ReadValues: true}, true})
 	}
 	for _, v := range vs {
+		if ordersOnly && v.dim != "order" {
+			continue
+		}
 		x := execDag(d, v.order, v.o)
 		res.Evaluations++
 		res.count("dag_variant_executions", 1)
@@ -140,6 +210,10 @@ func runC03(cs CaseSpec) *CaseResult {
 				res.count("dag_variants_outside_supported_range_"+v.dim, 1)
 				continue
 			}
+			if ordersOnly {
+				res.inconclusive(fmt.Sprintf("variant [%s] failed: %v", v.desc, x.Err))
+				continue
+			}
 			res.violate("C03", "C03:variant-fails:"+v.dim,
 				fmt.Sprintf("the same events cannot be processed under variant [%s]: %v (the reference execution succeeded)", v.desc, x.Err),
 				map[string]interface{}{"variant": v.desc, "n": sp.N, "events": len(d.Events), "error_at": x.ErrAt})
@@ -148,8 +222,11 @@ func runC03(cs CaseSpec) *CaseResult {
 		diff := compareExec(ref, x, v.prefix)
 		x.close()
 		if diff != "" {
-			res.violate("C03", "C03:differs:"+v.dim,
-				fmt.Sprintf("same event set, different consensus output under variant [%s]: %s", v.desc, diff),
+			sig, msg := "C03:differs:"+v.dim, fmt.Sprintf("same event set, different consensus output under variant [%s]: %s", v.desc, diff)
+			if ordersOnly {
+				sig, msg = label+":block-disagreement", fmt.Sprintf("two nodes that received the same events in different orders (creation order / %s) computed different consensus results: %s", v.desc, diff)
+			}
+			res.violate(label, sig, msg,
 				map[string]interface{}{"variant": v.desc, "n": sp.N, "events": len(d.Events), "reference_blocks": len(ref.Blocks), "dag": exportDag(d, 80)})
 			if v.dim != "batch-intermediate" && v.dim != "batch-all" {
 				return res
@@ -180,11 +257,28 @@ func exportDag(d *Dag, k int) interface{} {
 func init() {
 	register(&PropDef{
 		ID: "C03", Level: "exploration", Engine: "dagcheck",
-		Rule: "one case = one seeded synthetic fork-free DAG (n=1..7 creators, 30-400 events, private chains, first events without other-parent, repeated other-parents) executed by a reference real Hashgraph (generation order, in-memory, consensus after every event) and by ~14 variant executions (random linear extensions, fresh process state, Badger, cache sizes from the measured in-flight bound W, consensus batchings 2/5/17/all, random downward-closed sub-DAGs) that must give identical per-event round/witness/Lamport/fame/round-received and identical blocks (prefix for sub-DAGs); non-trivial: the reference produced >=3 blocks; distinct DAGs by (seed,index,last event hash)",
+		Rule: "one case = one seeded synthetic fork-free DAG (n=1..7 creators, 30-400 events, private chains, first events without other-parent, repeated other-parents; every fourth DAG is a split-view DAG found by a workload search for fame elections that last into a coin round, every eighth a fixed long-election shape with relabelled creators) executed by a reference real Hashgraph (generation order, in-memory, consensus after every event) and by ~14 variant executions (random linear extensions, one creator's events as late as possible, the ancestry of a random event first, fresh process state, Badger, cache sizes from the measured in-flight bound W, consensus batchings 2/5/17/all, random downward-closed sub-DAGs) that must give identical per-event round/witness/Lamport/fame/round-received and identical blocks (prefix for sub-DAGs); non-trivial: the reference produced >=3 blocks; distinct DAGs by (seed,index,last event hash)",
 		Assumptions: []string{"static validator set", "a variant that ends in a store-miss error with a cache below the default or with delayed consensus passes is outside the supported range and dropped (counted), only differing outputs are violations", "in-memory variants are never run with a cache below the event count"},
 		MinNontrivial: 8,
-		Cases: func(tier string, seed int64) []CaseSpec { return dagCases(tier, seed, 40, 600) },
-		Run:   runC03,
+		Cases: func(tier string, seed int64) []CaseSpec {
+			cs := dagCases(tier, seed, 40, 600)
+			for i := range cs {
+				if i%8 == 5 {
+					cs[i].S = map[string]string{"shape": "long-election"}
+					cs[i].P["coin"] = 1
+					cs[i].P["n"] = 4
+					continue
+				}
+				if i%4 == 3 {
+					// split-view DAGs searched for long fame elections (coin rounds)
+					cs[i].P["coin"] = 1
+					cs[i].P["n"] = []int64{4, 4, 5, 7}[(i/4)%4]
+					cs[i].P["events"] = int64(120 + (i*11)%120)
+				}
+			}
+			return cs
+		},
+		Run: runC03,
 		PerCaseTimeout: 15 * time.Minute,
 	})
 }
